@@ -329,7 +329,7 @@ func ruleRangePredicates(p *Prog, r *Report, rule string) {
 		for _, past := range []bool{false, true} {
 			for _, bf := range []bool{false, true} {
 				leaf := func(v ssa.Value) (bool, bool) {
-					if pa, ok := v.(*ssa.Parameter); ok && pa.Name() == "unsorted" {
+					if pa, ok := v.(*ssa.Parameter); ok && paramRefName(pa) == "unsorted" {
 						return false, true
 					}
 					if c, ok := callValue(v, "(*leveldb.tFile).before"); ok && keyRole(c.Call.Args[2], 4) == "p3" {
